@@ -76,16 +76,19 @@ class Stats:
         self.sat = 0
         self.unknown = 0
         self.t_obl = 0.0
+        self.wit = 0          # reachability / witness queries (satisfiable())
+        self.wit_sat = 0
         self.shapes = set()
 
     def merge(self, o):
-        for k in ("paths", "feas_queries", "t_feas", "obl", "unsat", "sat", "unknown", "t_obl"):
+        for k in ("paths", "feas_queries", "t_feas", "obl", "unsat", "sat", "unknown", "t_obl", "wit", "wit_sat"):
             setattr(self, k, getattr(self, k) + getattr(o, k))
         self.shapes |= o.shapes
 
     def as_dict(self):
         return dict(paths=self.paths, feasibility_queries=self.feas_queries,
                     obligations=self.obl, unsat=self.unsat, sat=self.sat, unknown=self.unknown,
+                    witness_queries=self.wit, witnesses_found=self.wit_sat,
                     distinct_query_shapes=len(self.shapes),
                     solver_s=round(self.t_feas + self.t_obl, 3))
 
@@ -372,7 +375,7 @@ def prove(claim, assumptions=(), timeout_ms=60000, label=None):
 
 
 def satisfiable(cond, assumptions=(), timeout_ms=60000):
-    """reachability witness: returns (status, model)"""
+    """reachability witness / model search: returns (status, model); counted separately from proof obligations"""
     s = z3.Solver()
     s.set("timeout", timeout_ms)
     for a in assumptions:
@@ -380,13 +383,11 @@ def satisfiable(cond, assumptions=(), timeout_ms=60000):
     s.add(cond)
     t = time.time()
     r = s.check()
-    STATS.obl += 1
+    STATS.wit += 1
     STATS.t_obl += time.time() - t
     if r == z3.sat:
-        STATS.sat += 1
+        STATS.wit_sat += 1
         return "sat", s.model()
     if r == z3.unsat:
-        STATS.unsat += 1
         return "unsat", None
-    STATS.unknown += 1
     return "unknown", None
